@@ -1325,7 +1325,7 @@ impl Transaction {
                 //
                 // outputs[3..] = Normal
                 //
-                for slip in self.from.iter().skip(3) {
+                for slip in self.to.iter().skip(3) {
                     if slip.slip_type != SlipType::Normal {
                         error!(
                             "Bound Transaction: created tx has unexpected non-normal slip (found {:?}).",
